@@ -1039,9 +1039,36 @@ func c15d(c *Ctx, regs []c14Reg) {
 				id, ok := unparen(se.X).(*ast.Ident)
 				return ok && id.Name == rv && rv != ""
 			}
+			// carriers of the element: the parameter and every single-definition local derived from a
+			// carrier (`line := b`, `data := []byte(s)`): an emitting call may name any of them
+			carriers := map[types.Object]bool{param: true}
+			mdefs := localDefs(info, md.Body)
+			for grew := true; grew; {
+				grew = false
+				for o, ds := range mdefs {
+					if carriers[o] || len(ds) != 1 || ds[0] == nil {
+						continue
+					}
+					for co := range carriers {
+						if mentions(info, ds[0], co) {
+							carriers[o] = true
+							grew = true
+							break
+						}
+					}
+				}
+			}
+			mentionsElem := func(n ast.Node) bool {
+				for co := range carriers {
+					if mentions(info, n, co) {
+						return true
+					}
+				}
+				return false
+			}
 			event := func(nd ast.Node) bool {
 				call, ok := nd.(*ast.CallExpr)
-				if !ok || !mentions(info, call, param) {
+				if !ok || !mentionsElem(call) {
 					return false
 				}
 				if _, ok := isBuiltinCall(info, call, "append"); ok && len(call.Args) >= 2 && isRecvField(call.Args[0]) {
